@@ -25,7 +25,7 @@ func init() {
 		Families: []Family{
 			witnessFamily("C08"),
 			{Name: "grid", N: func(string) int { return 5 }, Run: c08Grid},
-			{Name: "rand", N: tierN(250000, 3000000), Run: c08Random},
+			{Name: "rand", N: tierN(250000, 10000000), Run: c08Random},
 		},
 	})
 }
@@ -172,7 +172,7 @@ func init() {
 			witnessFamily("C09"),
 			{Name: "substring", N: func(string) int { return len(xgen.StrAlphabet) }, Run: c09Substring},
 			{Name: "pairs", N: func(string) int { return len(xgen.StrAlphabet) }, Run: c09Pairs},
-			{Name: "rand", N: tierN(250000, 3000000), Run: c09Random},
+			{Name: "rand", N: tierN(250000, 10000000), Run: c09Random},
 		},
 	})
 }
